@@ -160,4 +160,8 @@ def compileDoc (docs : Docs) (cfuel fuel : Nat) (name : Str) : DocResult :=
   let r := compileDocCore (restrict docs seen) fuel name
   if closed docs seen then r else { r with fl := { r.fl with fuelOut := true, dirty := true } }
 
+/-- compiling several documents one after the other: no state is carried over -/
+def compileAll (docs : Docs) (cfuel fuel : Nat) (names : List Str) : List DocResult :=
+  names.map (compileDoc docs cfuel fuel)
+
 end RimeModel.C14
